@@ -16,8 +16,7 @@ for d in /verif/benign/$name/refactor*.diff; do
   mkdir -p $scratch/verif; cp /verif/known_findings.jsonl $scratch/verif/
   if ! (cd $scratch/src && patch -p1 -s --no-backup-if-mismatch -i "$d"); then echo "does not apply"; rm -rf $scratch; rc=1; continue; fi
   (cd $scratch/src && go build ./... ) || echo "BUILD FAILS"
-  alarms=$(cd /verif && printf '%s\n' C01 C02 C03 C04 C05 C06 C07 C08 C09 C10 C11 C12 C13 C14 C15 C16 C17 C18 C19 C20 | xargs -P 10 -I{} sh -c \
-    'out=$(./bin/xcheck -prop {} -repo '$scratch'/src -verif '$scratch'/verif 2>&1); if echo "$out" | grep -q "^VIOLATION\|^CHECKER"; then echo "{} ALARM: $(echo "$out" | grep -E "^(VIOLATED|UNDECIDED|CHECKER)" | head -4 | cut -c1-300)"; fi' | sort)
+  alarms=$(cd /verif && ./bin/xcheck -prop all -repo $scratch/src -verif $scratch/verif 2>&1 | grep -E "^(VIOLATED|UNDECIDED|CHECKER)" | cut -c1-320 | sed -E 's/^(VIOLATED|UNDECIDED) (C[0-9]+)/\2 ALARM: \1 \2/' | sort)
   [ -n "$alarms" ] && { echo "$alarms" | sed "s#$scratch/src/##g"; rc=1; }
   rm -rf $scratch
 done
